@@ -27,6 +27,15 @@ func (o *Oracle) check(c *Case, r *RealOut) string {
 	if r == nil || r.Timeout || r.Panic != "" || r.DefPanic != "" {
 		return ""
 	}
+	if o.prop == "C04" || ((o.prop == "C06" || o.prop == "C12") && c.Reparse) {
+		o.evals++
+	}
+	if r.ArgsMutated != "" && (o.prop == "C03" || o.prop == "C04") {
+		return "Parse modified the argument slice it was given: " + r.ArgsMutated
+	}
+	if r.ReparseDiff != "" && (o.prop == "C06" || o.prop == "C12") {
+		return "parsing an empty command line afterwards changed an option: " + r.ReparseDiff
+	}
 	switch o.prop {
 	case "C03":
 		// conservation, decided on the implementation alone: whenever Parse succeeds the remaining list
